@@ -721,8 +721,34 @@ def c14_growth(tier, seed):
     return res
 
 
+# ------------------------------------------------------------------------------------------------ C02 unbounded shape
+def shape_ind(tier, seed):
+    """Apalache: the shape part of the storage invariant is inductive for UNBOUNDED inline capacity / size / capacity
+    (spec/ShapeInd.tla).  Design level only; a failure is an error of the model, reported as internal error."""
+    src = os.path.join(P.SPEC, 'ShapeInd.tla')
+    wd = os.path.join(P.CACHE, 'apalache', P.sha('shapeind', P.file_sha(src)))
+    okf = os.path.join(wd, 'ok')
+    with P.Lock(wd):
+        if not os.path.exists(okf):
+            os.makedirs(wd, exist_ok=True)
+            shutil.copy(src, os.path.join(wd, 'ShapeInd.tla'))
+            for (init, length) in (('Init', 0), ('IndInit', 1)):
+                p = subprocess.run(['apalache-mc', 'check', '--cinit=ConstInit', '--init=' + init, '--inv=Inv', '--length=%d' % length,
+                                    '--out-dir=' + os.path.join(wd, 'out'), 'ShapeInd.tla'], cwd=wd, stdout=subprocess.PIPE, stderr=subprocess.STDOUT, timeout=900)
+                out = p.stdout.decode('utf-8', 'replace')
+                if 'The outcome is: NoError' not in out:
+                    raise RuntimeError('Apalache: ShapeInd %s step failed:\n%s' % (init, out[-2000:]))
+            shutil.rmtree(os.path.join(wd, 'out'), ignore_errors=True)
+            open(okf, 'w').write('ok')
+    return dict(lines=0, ops=0, restarts=0, skipped=0, sample=[], sigs={}, nlines={}, violations=[], stims=0, stims_total=0, mc=None,
+                drv='ShapeInd', drvconf=None, fmode=0,
+                label='design level (Apalache, spec/ShapeInd.tla): Init => Inv and Inv /\\ Next => Inv\' for unbounded N, size, capacity',
+                coverage_extra=dict(apalache_inductive_invariant='ShapeInd.Inv: base and inductive step discharged (unbounded integers)'))
+
+
 EXTRA = {
     'C01': [oracle_selftest],
+    'C02': [shape_ind],
     'C03': [mc_impl],
     'C05': [mc_impl],
     'C06': [mc_impl],
